@@ -646,7 +646,10 @@ macro_rules! lin_refv {
                     v.push(format!("value[{j}]"));
                 }
                 v.push("point".into());
+                v.push("vk.check_well_formedness".into());
+                v.push("vk.sec_param".into());
                 for (j, p) in proofs.iter().enumerate() {
+                    v.push(format!("proof[{j}].well_formedness(presence)"));
                     if !p.opening.v.is_empty() {
                         v.push(format!("proof[{j}].v[{}]", p.opening.v.len() / 2));
                     }
@@ -684,10 +687,23 @@ macro_rules! lin_refv {
                     t.values[nums[0]] = rfr(seed);
                 } else if name == "point" {
                     t.point = <Self as LinPoint>::random_point(&t.point, seed);
+                } else if name.starts_with("vk.") {
+                    let what = if name.ends_with("sec_param") { "sec" } else { "wf" };
+                    if let Some(vk) = <Self as lincode::Lin>::tweak_vk(&t.vk, what, seed) {
+                        t.vk = vk;
+                    }
                 } else {
                     let mut proofs: Vec<MProof> = lincode::proofs_mirror::<Self>(&t.proof).unwrap_or_default();
                     let p = &mut proofs[nums[0]];
-                    if name.contains(".v[") {
+                    if name.ends_with("(presence)") {
+                        p.well_formedness = match p.well_formedness.take() {
+                            Some(_) => None,
+                            None => {
+                                let mut g = rng(seed);
+                                Some((0..p.opening.v.len()).map(|_| Fr::rand(&mut g)).collect())
+                            }
+                        };
+                    } else if name.contains(".v[") {
                         p.opening.v[nums[1]] = rfr(seed);
                     } else if name.contains(".well_formedness[") {
                         p.well_formedness.as_mut().unwrap()[nums[1]] = rfr(seed);
